@@ -189,6 +189,9 @@ pub struct Lexer {
     raw_lexer: RawLexer,
     state: State,
     first_line_started: bool,
+    // An end of line has been reported and the next line has not been started yet.
+    #[cfg_attr(feature = "serde", serde(default))]
+    end_of_line_reported: bool,
     // We read control sequence names into a shared buffer to avoid allocating for each one.
     #[cfg_attr(feature = "serde", serde(skip))]
     buffer: String,
@@ -201,6 +204,7 @@ impl Lexer {
             raw_lexer: RawLexer::new(source_code, trace_key_range),
             state: State::NewLine,
             first_line_started: false,
+            end_of_line_reported: false,
             buffer: Default::default(),
         }
     }
@@ -216,13 +220,22 @@ impl Lexer {
             let raw_token = match self.raw_lexer.next(config) {
                 None => {
                     self.state = State::NewLine;
+                    // When ends of lines are reported (the \read primitive) the next line is
+                    // not started before it is asked for: TeX attaches the end of line
+                    // character that is current when the line is read (TeX.2021.483, .486),
+                    // and that may have changed since the previous \read.
+                    if report_end_of_line && self.first_line_started && !self.end_of_line_reported {
+                        if !self.raw_lexer.has_next_line() {
+                            return Result::EndOfInput;
+                        }
+                        self.end_of_line_reported = true;
+                        return Result::EndOfLine;
+                    }
+                    self.end_of_line_reported = false;
                     if !self.raw_lexer.start_new_line(config) {
                         return Result::EndOfInput;
                     }
                     if report_end_of_line {
-                        if self.first_line_started {
-                            return Result::EndOfLine;
-                        }
                         self.first_line_started = true;
                     }
                     continue;
@@ -409,6 +422,11 @@ impl RawLexer {
             num_trimmed_right: 0,
             trace_key_range,
         }
+    }
+
+    /// True if and only if the input has a further line after the current one.
+    fn has_next_line(&self) -> bool {
+        self.next_line < self.source_code.len()
     }
 
     fn end_line(&mut self) {
